@@ -11,6 +11,8 @@ pub trait HasId { fn id(&self) -> String; }
 pub trait Marker {}
 impl HasId for ::entrait::Impl<App> { fn id(&self) -> String { format!("app#{}", self.id) } }
 impl Marker for ::entrait::Impl<App> {}
+pub mod alt { pub trait Marker {} }
+impl alt::Marker for ::entrait::Impl<App> {}
 """
 
 ATTR = {"none": "pub T", "unimock": "pub T, mock_api = Mk, unimock", "mock": "pub T, mock_api = Mk, unimock, export", "mockall": "pub T, mockall", "export": "pub T, export",
@@ -48,6 +50,8 @@ class Prog:
             params.append("deps: D")
         elif p["deps"] == "implref":
             params.append("deps: &impl crate::Marker")
+        elif p["deps"] == "implref2":
+            params.append("deps: &(impl crate::Marker + crate::alt::Marker)")
         elif p["deps"] == "concrete":
             params.append("deps: &crate::Conc")
         leaf = 1
@@ -79,7 +83,7 @@ class Prog:
 
     def deps_id(self):
         d = self.p["deps"]
-        if d in ("genref", "implref", "concrete"):
+        if d in ("genref", "implref", "implref2", "concrete"):
             return "::vt::addr(deps)"
         if d == "genval":
             return "crate::HasId::id(&deps)"
